@@ -11,8 +11,8 @@ Lemma murder_check_is_decision : forall s p todo w,
   master s =
   match murder_decision (mono s) (w_hb w) (timeout s * tps) (w_aborted w) with
   | Nothing => murder_next s todo
-  | Kill => set_pc s (PMurderKill p SIGKILL todo)
-  | Abort => set_pc (set_workers s (set_aborted p (workers s))) (PMurderKill p SIGABRT todo)
+  | SigKill => set_pc s (PMurderKill p SIGKILL todo)
+  | SigAbrt => set_pc (set_workers s (set_aborted p (workers s))) (PMurderKill p SIGABRT todo)
   end.
 Proof.
   intros s p todo w PC F. unfold master. rewrite PC, F. unfold murder_decision.
@@ -186,6 +186,13 @@ Proof.
     unfold notify_all. fold f. cbn [cur set_workers kids mono].
     destruct (cur s) eqn:PC; try (split; [simpl; rewrite PC; auto | auto]).
     destruct (live_pid _ p0); split; simpl; auto; rewrite PC; auto.
+  - destruct Q as [NM NA]. unfold notify_at. destruct (find_kid p0 (kids s)). 2: (split; auto).
+    destruct (_ && _). 2: (split; auto).
+    assert (NA1 : not_aborted p (set_workers s (set_hb p0 t (workers s)))).
+    { intros w Hw. simpl in Hw. apply find_wk_map in Hw. destruct Hw as [w0 [F0 ->]]. destruct (w_pid w0 =? p0); simpl; auto.
+      intros x. destruct (w_pid x =? p0); auto. }
+    cbn [cur set_workers]. destruct (cur s) eqn:PC; try (split; [simpl; rewrite PC; auto | auto]).
+    destruct (p1 =? p0); split; simpl; auto; rewrite PC; auto.
 Qed.
 
 (* A worker whose heartbeat is never older than the timeout - at any instant of any schedule - is never
@@ -253,8 +260,8 @@ Theorem hang_is_killed_scan : forall (c : nat -> Z) h tmo P,
   (forall i, c i < c (S i) <= c i + P) -> c O <= h + tmo ->
   exists i,
     (forall j, (j < i)%nat -> murder_decision (c j) h tmo false = Nothing) /\
-    murder_decision (c i) h tmo false = Abort /\
-    murder_decision (c (S i)) h tmo true = Kill /\
+    murder_decision (c i) h tmo false = SigAbrt /\
+    murder_decision (c (S i)) h tmo true = SigKill /\
     c (S i) <= h + tmo + 2 * P.
 Proof.
   intros c h tmo P Hc H0.
@@ -389,7 +396,7 @@ Qed.
 Theorem no_false_kill_refuted :
   let ns := notify_times Gevent 1 0 [Idle 2; Idle 2] in
   ns = [0; 258; 516] /\ slack_budget Gevent 1 = 0 /\
-  murder_decision 257 (last_before (tl ns) 257 0) (1 * ticks_per_second) false = Abort.
+  murder_decision 257 (last_before (tl ns) 257 0) (1 * ticks_per_second) false = SigAbrt.
 Proof. vm_compute. repeat split; reflexivity. Qed.
 
 (* the same in the arbiter model: one gevent-like worker, timeout 1; the master's loop is one tick late *)
